@@ -56,7 +56,7 @@ def expr_may_raise(e):
 
 
 def stmt_may_raise(st):
-    if isinstance(st, (ast.Pass, ast.Break, ast.Continue, ast.Global, ast.Nonlocal)):
+    if isinstance(st, (ast.Pass, ast.Break, ast.Continue, ast.Global, ast.Nonlocal, ast.Import, ast.ImportFrom)):
         return False
     if isinstance(st, FUNC + (ast.ClassDef,)):
         return False
